@@ -14,9 +14,45 @@ type Region struct {
 }
 
 type Ref struct {
-	sc  *Schema
-	g   *Gen
-	Sum func(alg string, frame *Bytes) *Term // checksum oracle (driver supplied)
+	sc   *Schema
+	g    *Gen
+	Sum  func(alg string, frame *Bytes) *Term // checksum oracle (driver supplied)
+	Nums []Region                             // every multi-byte integer rendering, at any depth (absolute offsets)
+	Leaves []Region                           // every primitive rendering, at any depth (absolute offsets)
+	base *Term
+	path string
+}
+
+func (r *Ref) leaf(name, kind string, start, end *Term) {
+	b := r.base
+	if b == nil {
+		b = CI(0)
+	}
+	r.Leaves = append(r.Leaves, Region{Name: r.path + name, Kind: kind, Start: Add(b, start), End: Add(b, end)})
+}
+
+func (r *Ref) num(name string, start *Term, n int) {
+	r.leaf(name, "num", start, Add(start, CI(int64(n))))
+	if n < 2 {
+		return
+	}
+	b := r.base
+	if b == nil {
+		b = CI(0)
+	}
+	r.Nums = append(r.Nums, Region{Name: r.path + name, Kind: "num", Start: Add(b, start), End: Add(b, Add(start, CI(int64(n)))), Numeric: true})
+}
+
+// sub: reference encoding of a nested value placed at offset off of the current output
+func (r *Ref) sub(v *SVal, off *Term, name string) *Bytes {
+	ob, op := r.base, r.path
+	if ob == nil {
+		ob = CI(0)
+	}
+	r.base, r.path = Add(ob, off), op+name+"."
+	b, _ := r.Enc(v)
+	r.base, r.path = ob, op
+	return b
 }
 
 func intBytes(v *Term, little bool) []*Term { return scalarBytes(v, little) }
@@ -61,46 +97,54 @@ func (r *Ref) Enc(v *SVal) (*Bytes, []Region) {
 		numeric := false
 		switch f.Kind {
 		case "int", "float":
+			r.num(f.Go, out.Len, typeWidth(f.Type)/8)
 			out = Concat2(out, VecBytes(intBytes(fv.T, little)))
 			numeric = true
 		case "computed_len":
 			lenPos, lenField = out.Len, f
+			r.num(f.Go, out.Len, typeWidth(f.Type)/8)
 			out = Concat2(out, VecBytes(intBytes(C(typeWidth(f.Type), 0), little)))
 			numeric = true
 		case "computed_sum":
 			frame := SliceBytes(out, frameStart, out.Len)
 			sum := r.Sum(f.Alg, frame)
+			r.num(f.Go, out.Len, typeWidth(f.Type)/8)
 			out = Concat2(out, VecBytes(intBytes(sum, little)))
 			numeric = true
 		case "fixstr":
+			r.leaf(f.Go, "fixstr", out.Len, Add(out.Len, CI(int64(f.Width))))
 			out = Concat2(out, refFix(fv, f))
 		case "pstr":
+			r.num(f.Go+"(len)", out.Len, typeWidth(f.Prefix)/8)
 			out = Concat2(out, VecBytes(prefixBytes(f.Prefix, fv.S.Len, little)))
+			r.leaf(f.Go+"(text)", "text", out.Len, Add(out.Len, fv.S.Len))
 			out = Concat2(out, fv.S)
 		case "list_basic", "list_fixstr", "list_pstr", "list_obj":
+			r.num(f.Go+"(count)", out.Len, typeWidth(f.Count)/8)
 			out = Concat2(out, VecBytes(prefixBytes(f.Count, CI(int64(len(fv.L))), little)))
-			for _, el := range fv.L {
+			for j, el := range fv.L {
 				switch f.Kind {
 				case "list_basic":
+					r.num(fmt.Sprintf("%s[%d]", f.Go, j), out.Len, typeWidth(f.Elem)/8)
 					out = Concat2(out, VecBytes(intBytes(el.T, little)))
 				case "list_fixstr":
+					r.leaf(fmt.Sprintf("%s[%d]", f.Go, j), "fixstr", out.Len, Add(out.Len, CI(int64(f.Width))))
 					out = Concat2(out, refFix(el, f))
 				case "list_pstr":
+					r.num(fmt.Sprintf("%s[%d](len)", f.Go, j), out.Len, typeWidth(f.Prefix)/8)
 					out = Concat2(out, VecBytes(prefixBytes(f.Prefix, el.S.Len, little)))
+					r.leaf(fmt.Sprintf("%s[%d](text)", f.Go, j), "text", out.Len, Add(out.Len, el.S.Len))
 					out = Concat2(out, el.S)
 				case "list_obj":
-					b, _ := r.Enc(el)
-					out = Concat2(out, b)
+					out = Concat2(out, r.sub(el, out.Len, fmt.Sprintf("%s[%d]", f.Go, j)))
 				}
 			}
 		case "nested":
-			b, _ := r.Enc(fv)
-			out = Concat2(out, b)
+			out = Concat2(out, r.sub(fv, out.Len, f.Go))
 		case "body":
 			bodyStart = out.Len
 			if fv.K == 'o' {
-				b, _ := r.Enc(fv)
-				out = Concat2(out, b)
+				out = Concat2(out, r.sub(fv, out.Len, f.Go))
 			}
 			if lenPos != nil {
 				n := Sub(out.Len, bodyStart)
